@@ -77,14 +77,16 @@ Definition dial_order (oracle missing : list N) : list N :=
   filter (fun e => memN e missing) (nodup N.eq_dec oracle) ++
   filter (fun e => negb (memN e oracle)) missing.
 
-(* the dial loop: new pools, dial log (endpoint, succeeded), failed? *)
-Fixpoint dial_all (fails : list N) (n : N) (es : list N) : list (N * pool) * list (N * bool) * bool :=
+(* the dial loop: new pools, dial log (endpoint, succeeded), failed?
+   [readys]: the endpoints whose ClientConn is already READY when DialFunc
+   returns it (e.g. a DialFunc using grpc.WithBlock()): an input, like [fails]. *)
+Fixpoint dial_all (fails readys : list N) (n : N) (es : list N) : list (N * pool) * list (N * bool) * bool :=
   match es with
   | [] => ([], [], false)
   | e :: r =>
       if memN e fails then ([], [(e, false)], true)
-      else let '(ps, lg, f) := dial_all fails (n + 1)%N r in
-           ((e, mkPool n true true false) :: ps, (e, true) :: lg, f)
+      else let '(ps, lg, f) := dial_all fails readys (n + 1)%N r in
+           ((e, mkPool n true true (memN e readys)) :: ps, (e, true) :: lg, f)
   end.
 
 (* "Add new multi-endpoints and update existing" + "Remove obsolete
@@ -123,12 +125,12 @@ Definition set_dials (s : gst) (n : N) : gst :=
   mkG (g_mes s) (g_pools s) (g_default s) (g_closed s) n.
 
 (* func (gme *GCPMultiEndpoint) UpdateMultiEndpoints(meOpts) error *)
-Definition gupdate (s : gst) (o : gopts) (fails oracle : list N) : gst * gout :=
+Definition gupdate (s : gst) (o : gopts) (fails oracle readys : list N) : gst * gout :=
   let c := check_opts o in
   if negb (c =? 0) then (s, mkGOut c [] 0)
   else
     let missing := filter (fun e => negb (gmem (g_pools s) e)) (mentioned o) in
-    let '(nps, lg, failed) := dial_all fails (g_dials s) (dial_order oracle missing) in
+    let '(nps, lg, failed) := dial_all fails readys (g_dials s) (dial_order oracle missing) in
     let nd := (g_dials s + N.of_nat (length lg))%N in
     if failed then (set_dials s nd, mkGOut 3 lg 0)
     else
@@ -204,7 +206,7 @@ Definition gcall (s : gst) (ctx : option N) : Z :=
   end.
 
 Inductive gop :=
-| GUpdate (o : gopts) (fails oracle : list N)
+| GUpdate (o : gopts) (fails oracle readys : list N)
 | GReady (e : N) (b : bool)
 | GTick (n : N) (o : op)
 | GMark (up : bool) (e : N)        (* harness starts/stops the server of e: no effect on the object *)
@@ -213,7 +215,7 @@ Inductive gop :=
 
 Definition gstep (s : gst) (o : gop) : gst * gout :=
   match o with
-  | GUpdate op fails oracle => gupdate s op fails oracle
+  | GUpdate op fails oracle readys => gupdate s op fails oracle readys
   | GReady e b => (gready s e b, mkGOut 0 [] 0)
   | GTick n op => (gtick s n op, mkGOut 0 [] 0)
   | GMark _ _ => (s, mkGOut 0 [] 0)
@@ -266,11 +268,11 @@ Fixpoint grun_state (s : gst) (ops : list gop) : gst :=
 
 (* A history: NewGCPMultiEndpoint(o) (= UpdateMultiEndpoints on the empty
    object; on error the object is dropped and the history ends), then ops. *)
-Definition gtrace (o : gopts) (fails oracle : list N) (ops : list gop) : list gevent :=
-  let '(s1, out) := gupdate (ginit o) o fails oracle in
-  mkGE (GUpdate o fails oracle) out (gobserve s1) ::
+Definition gtrace (o : gopts) (fails oracle readys : list N) (ops : list gop) : list gevent :=
+  let '(s1, out) := gupdate (ginit o) o fails oracle readys in
+  mkGE (GUpdate o fails oracle readys) out (gobserve s1) ::
   (if og_err out =? 0 then grun s1 ops else []).
 
-Definition gtrace_state (o : gopts) (fails oracle : list N) (ops : list gop) : gst :=
-  let '(s1, out) := gupdate (ginit o) o fails oracle in
+Definition gtrace_state (o : gopts) (fails oracle readys : list N) (ops : list gop) : gst :=
+  let '(s1, out) := gupdate (ginit o) o fails oracle readys in
   if og_err out =? 0 then grun_state s1 ops else s1.
